@@ -17,6 +17,7 @@ fn space_for(tier: Tier) -> (Space, usize) {
     match tier {
         Tier::Quick => {
             s.ast("K", 5, 64).ast("U", 3, 64).ast("GCM", 4, 64).ast("GCE", 3, 64);
+            s.ast_range("CL", 1, 4, 64, 2);
             s.ast_range("LP", 1, 3, 32, 5);
             s.ast_range("ALT", 1, 3, 32, 4);
             (s, 3)
